@@ -104,7 +104,7 @@ theorem ti_of_same (hm : s.MidS p0 a1 aN v) (hti : TI Lm tt rt s) (htx : TxC s) 
     rw [e]; exact htx
   · rw [NetState.node_putDrv s ds hm.1]
 
-variable (C : L3Contracts)
+variable (C : C15Contracts)
 include C
 
 /-- `self._rf24.send(buf, send_only=True)` -/
